@@ -158,6 +158,8 @@ def generate(seed, tier='quick'):
         clock['start'] = r.choice([1798761599.0, 1830297599.5, 951868799.0, 4102444799.0, 253402300700.0])
     tables = gen_tables(r, external=start.startswith('external'))
     hdr = [['k%dw' % i, rstr(r, 6, header=True)] for i in range(r.randint(0, 4))]
+    if r.random() < 0.05:
+        hdr.append([r.choice(['enum', 'struct', 'c00q', 'TB0', 'filename']), rstr(r, 6, header=True)])
     comments0 = r.choice(COMMENTS)
     style = r.choice([0, 0, 1])
     eol = r.choice(['\n', '\n', '\n', '\r\n'])
@@ -182,7 +184,8 @@ def generate(seed, tier='quick'):
         op = r.choice(population)
         if op in ('append_rows', 'append_mixed', 'append_pairs'):
             st = {'op': 'append', 'rows': {}, 'pairs': [], 'case': r.choice(['upper', 'lower']),
-                  'form': r.choice(['lists', 'recarray']), 'symbols': r.random() < 0.15}
+                  'form': r.choice(['lists', 'lists', 'recarray', 'recarray', 'recarray-permuted', 'lists-extra']),
+                  'symbols': r.random() < 0.15}
             if op in ('append_rows', 'append_mixed'):
                 for ti in r.sample(range(len(tables)), r.randint(1, min(2, len(tables)))):
                     nadd = r.randint(1, 3) if r.random() < 0.97 else r.choice([17, 40, 130])
